@@ -362,3 +362,41 @@ func init() {
 		},
 	})
 }
+
+func init() {
+	sym := map[string]bool{"go/typeutil.identical": true, "go/typeutil.identicalVar": true, "go/typeutil.sameVarName": true, "go/typeutil.sameFuncName": true, "go/typeutil.sameName": true, "go/typeutil.Identical": true}
+	register(&PropDef{
+		ID:    "C28",
+		Title: "Type identity is a total equivalence consistent with type hashing and type maps",
+		Explanation: "Decided: Y1 mirror rule: in identical, identicalVar, sameVarName, sameFuncName, sameName every comparison and every call of a symmetric predicate relates corresponding parts of the two operands (exchanging x and y maps one side onto the other, single-definition locals inlined) and every condition is invariant under the exchange — a necessary condition of symmetry; " +
+			"Y2 totality: every implementer of the forked types.Type has its own case in identical and in hashFor (no reachable panic); Y3 pointer parameters of sameName are dereferenced only after an early return taken when they are nil; " +
+			"Y6 hash features ⊆ identity features per type constructor (a feature that enters the hash but that identity ignores would give identical types different hashes); Y4 Map.At/Set/Delete locate the bucket with hasher.Hash and compare keys with the same typeutil.Identical; Y5 Map.Set leaves the bucket scan early only on an identical key. " +
+			"Not decided: transitivity, hash quality, the association-list behaviour beyond these clauses.",
+		Assumptions: []string{"getter aliases of the forked go/types: ExplicitMethod = Method, NumExplicitMethods = NumMethods (confirmed by reading go/types/type.go)", "reflect pointer identity of *types.TypeName objects"},
+		Patterns:    nil,
+		Rules: []func(*Ctx){func(c *Ctx) {
+			ruleMirror(c, "go/typeutil.identical", 0, 1, sym, "Y1-mirror")
+			ruleMirror(c, "go/typeutil.identicalVar", 0, 1, sym, "Y1-mirror")
+			ruleMirror(c, "go/typeutil.sameVarName", 0, 1, sym, "Y1-mirror")
+			ruleMirror(c, "go/typeutil.sameFuncName", 0, 1, sym, "Y1-mirror")
+			ruleTypeSwitchTotal(c, "go/typeutil.identical", "go/types", "Type", "Y2-total")
+			ruleTypeSwitchTotal(c, "go/typeutil.Hasher.hashFor", "go/types", "Type", "Y2-total")
+			ruleNilGuard(c, "go/typeutil.sameName", "Y3-nil-guard")
+			ruleHashSubsetOfIdentity(c, "go/typeutil.identical", "go/typeutil.Hasher.hashFor", "Y6-hash-subset")
+			ruleMapPredicate(c)
+			c.Floor("Y1-mirror", 20)
+			c.Floor("Y2-total", 20)
+			c.Floor("Y6-hash-subset", 15)
+		}},
+		Mutants: []Mutant{
+			{Name: "embedded-count-from-x", File: "go/typeutil/predicates.go", Old: "nf := y.NumEmbeddeds()", New: "nf := x.NumEmbeddeds()", Canary: true},
+			{Name: "struct-tag-same-side", File: "go/typeutil/predicates.go", Old: "cmpTags && x.Tag(i) != y.Tag(i) ||", New: "cmpTags && x.Tag(i) != x.Tag(i) ||"},
+			{Name: "basic-hashed-by-name", File: "go/typeutil/map.go", Old: "\t\treturn uint32(t.Kind())\n", New: "\t\treturn hashString(t.Name())\n", Canary: true},
+			{Name: "delete-uses-other-identity", File: "go/typeutil/map.go", Old: "if e.key != nil && Identical(key, e.key) {\n\t\t\t\t// We can't compact", New: "if e.key != nil && types.Identical(key, e.key) {\n\t\t\t\t// We can't compact"},
+			{Name: "set-stops-at-first-hole", File: "go/typeutil/map.go", Old: "\t\t\t\thole = &bucket[i]\n", New: "\t\t\t\thole = &bucket[i]\n\t\t\t\tbreak\n"},
+			{Name: "samename-nil-and", File: "go/typeutil/predicates.go", Old: "if xpkg == nil || ypkg == nil {", New: "if xpkg == nil && ypkg == nil {"},
+			{Name: "chan-arm-removed-from-hash", File: "go/typeutil/map.go", Old: "\tcase *types.Chan:\n\t\treturn 9127 + 2*uint32(t.Dir()) + 3*h.Hash(t.Elem())\n", New: ""},
+			{Name: "map-elem-compared-with-key", File: "go/typeutil/predicates.go", Old: "identical(x.Key(), y.Key(), cmpTags, p) && identical(x.Elem(), y.Elem(), cmpTags, p)", New: "identical(x.Key(), y.Key(), cmpTags, p) && identical(x.Elem(), y.Key(), cmpTags, p)"},
+		},
+	})
+}
